@@ -5,6 +5,8 @@ import os
 import numpy as np
 from hypothesis import strategies as st
 
+from mv import hperm
+
 from mv import gen_geom, geom, mf, ref_match, repl
 from mv.quiet import silenced
 from mv.runner import EnumPart, HypPart, Violation
@@ -47,8 +49,8 @@ def self_case(draw):
     sterms = {"bonds": [], "angles": [], "dihedrals": []}
     for kind, size in (("bonds", 2), ("angles", 3), ("dihedrals", 4)):
         if n >= size:
-            for _ in range(draw(st.integers(0, 3))):
-                t = list(draw(st.permutations(range(n))))[:size]
+            for _ in range(draw(hperm.integers(0, 3))):
+                t = list(draw(hperm.permutations(range(n))))[:size]
                 if canon(t) not in [canon(x) for x in pterms[kind]]:
                     pterms[kind].append(t)
         for c in copies:
@@ -56,8 +58,8 @@ def self_case(draw):
                 sterms[kind].append([c["start"] + i for i in t])
         pool = by if rall else list(range(N))
         if len(pool) >= size:
-            for _ in range(draw(st.integers(0, 3))):
-                t = [pool[i] for i in list(draw(st.permutations(range(len(pool)))))[:size]]
+            for _ in range(draw(hperm.integers(0, 3))):
+                t = [pool[i] for i in list(draw(hperm.permutations(range(len(pool)))))[:size]]
                 inside = [i for i in t if i in in_copy]
                 if rall and inside:
                     continue
@@ -175,11 +177,11 @@ def subst_case(draw):
     case = draw(repl.replace_case(repl_kinds=["identical"], fractions=False, max_copies=3, decoys=True,
                                   pattern_classes=["single", "single", "generic", "generic", "chiral", "planar", "rod", "symmetric"]))
     n = len(case["ppos"])
-    k = draw(st.integers(1, n))
-    change = sorted(draw(st.sets(st.integers(0, n - 1), min_size=k, max_size=k)))
+    k = draw(hperm.integers(1, n))
+    change = sorted(draw(st.sets(hperm.integers(0, n - 1), min_size=k, max_size=k)))
     bels = list(case["pels"])
     # injective element map, so that B is never more symmetric than A (otherwise B->A is ambiguous by construction)
-    emap = dict(zip(sorted(set(bels)), draw(st.permutations(["F", "Br", "Hf", "I", "Ge", "Kr"]))))
+    emap = dict(zip(sorted(set(bels)), draw(hperm.permutations(["F", "Br", "Hf", "I", "Ge", "Kr"]))))
     for i in change:
         bels[i] = emap[bels[i]]
     case["bels"] = bels
